@@ -112,11 +112,11 @@ pub fn rand_in_range(rng: &mut Rng, i: Ity) -> BigInt {
 /// a literal of integer type: small / boundary / uniform
 pub fn pick_int(rng: &mut Rng, i: Ity, benign: bool) -> BigInt {
     let k = rng.below(100);
-    let small_cut = if benign { 80 } else { 50 };
+    let small_cut = if benign { 80 } else { 72 };
     if k < small_cut {
         let v = BigInt::from(rng.below(if benign { 6 } else { 12 }));
         if i.signed() && rng.below(4) == 0 { -v } else { v }
-    } else if k < small_cut + 25 && !benign {
+    } else if k < small_cut + 13 && !benign {
         let c = rng.below(6);
         match c {
             0 => i.hi(),
@@ -279,6 +279,54 @@ impl<'a> Gen<'a> {
             self.stats.hit("var");
             return Expr::Var(*self.rng.pick(&vs));
         }
+        // no variable of the type: derive a value from a variable of another type when that is
+        // cheap, so that inputs reach conditions and arithmetic
+        if self.chance(70) {
+            match ty {
+                Ty::Bool => {
+                    let ints: Vec<(usize, Ity)> = self
+                        .scope
+                        .iter()
+                        .filter_map(|v| if let Ty::Int(i) = v.ty { Some((v.id, i)) } else { None })
+                        .collect();
+                    if !ints.is_empty() {
+                        self.stats.hit("derived_leaf");
+                        let (x, i) = *self.rng.pick(&ints);
+                        let o = *self.rng.pick(&[Binop::Lt, Binop::Le, Binop::Gt, Binop::Ge, Binop::Eq, Binop::Ne]);
+                        let l = Expr::Lit(Ty::Int(i), pick_int(self.rng, i, true));
+                        return Expr::Bin(o, Ty::Int(i), Box::new(Expr::Var(x)), Box::new(l));
+                    }
+                }
+                Ty::Int(i) => {
+                    let srcs: Vec<(usize, Ity)> = self
+                        .scope
+                        .iter()
+                        .filter_map(|v| match v.ty {
+                            Ty::Int(j) if j.upcastable(*i) => Some((v.id, j)),
+                            _ => None,
+                        })
+                        .collect();
+                    if !srcs.is_empty() {
+                        self.stats.hit("derived_leaf");
+                        let (x, j) = *self.rng.pick(&srcs);
+                        return Expr::Cast(CastK::Into, Ty::Int(j), ty.clone(), Box::new(Expr::Var(x)));
+                    }
+                }
+                Ty::Felt => {
+                    let srcs: Vec<(usize, Ity)> = self
+                        .scope
+                        .iter()
+                        .filter_map(|v| if let Ty::Int(j) = v.ty { Some((v.id, j)) } else { None })
+                        .collect();
+                    if !srcs.is_empty() {
+                        self.stats.hit("derived_leaf");
+                        let (x, j) = *self.rng.pick(&srcs);
+                        return Expr::Cast(CastK::Into, Ty::Int(j), Ty::Felt, Box::new(Expr::Var(x)));
+                    }
+                }
+                _ => {}
+            }
+        }
         self.stats.hit("literal");
         self.default_expr(ty, false)
     }
@@ -402,7 +450,10 @@ impl<'a> Gen<'a> {
                 }
                 self.stats.hit("enum_ctor");
                 let vs = self.prog.variants(ty);
-                let i = self.rng.below(vs.len() as u64) as usize;
+                let mut i = self.rng.below(vs.len() as u64) as usize;
+                if matches!(ty, Ty::Opt(_) | Ty::Res(..)) && self.chance(60) {
+                    i = 0;
+                }
                 let p = if matches!(ty, Ty::Opt(_)) && i == 1 { unit_expr() } else { self.expr(&vs[i], d) };
                 Expr::Enum(ty.clone(), i, Box::new(p))
             }
@@ -632,11 +683,12 @@ impl<'a> Gen<'a> {
         let self_ok = self.cur_recursive && self.self_calls_left > 0 && self.loops.is_empty() && &self.ret == ty;
         if self_ok && (cands.is_empty() || self.chance(60)) {
             let sig = self.sigs[self.cur_fn].clone();
+            self.self_calls_left -= 1;
             if let Some(args) = self.call_args(&sig, d, true) {
-                self.self_calls_left -= 1;
                 self.stats.hit("self_call");
                 return Some(Expr::Call(self.cur_fn, args));
             }
+            self.self_calls_left += 1;
         }
         if cands.is_empty() {
             return None;
@@ -737,7 +789,7 @@ impl<'a> Gen<'a> {
         let x = *self.rng.pick(&same);
         // index: mostly small so that both in-bounds and out-of-bounds occur
         let i = if self.chance(70) {
-            Expr::Lit(Ty::Int(Ity::U32), BigInt::from(self.rng.below(4)))
+            Expr::Lit(Ty::Int(Ity::U32), BigInt::from(self.rng.below(3)))
         } else {
             self.expr(&Ty::Int(Ity::U32), d.min(1))
         };
@@ -881,7 +933,7 @@ impl<'a> Gen<'a> {
             let e = self.loop_value(&Ty::unit(), d - 1);
             return Some(Stmt::Expr(e));
         }
-        if k < 79 {
+        if k < 76 {
             self.stats.hit("assert");
             let short = self.chance(60);
             let saved = self.in_macro;
@@ -913,11 +965,54 @@ impl<'a> Gen<'a> {
                 return Some(Stmt::Expr(Expr::ArrAppend(x, Box::new(e))));
             }
         }
-        if k < 94 {
-            // an expression evaluated for its effects (calls with ref arguments, panics)
-            let t = self.data_ty(1);
-            if let Some(e) = self.call(&t, d) {
+        if k < 96 {
+            // a call (for its value and its effects on `ref` arguments): pick the callee first
+            let mut rets: Vec<Ty> = (0..self.cur_fn).map(|f| self.sigs[f].ret.clone()).collect();
+            if self.cur_recursive && self.self_calls_left > 0 && self.loops.is_empty() {
+                rets.push(self.ret.clone());
+            }
+            if !rets.is_empty() {
+                let t = self.rng.pick(&rets).clone();
+                if let Some(e) = self.call(&t, d) {
+                    let x = self.fresh();
+                    self.scope.push(Var { id: x, ty: t.clone(), assignable: true });
+                    return Some(Stmt::Let(x, t, e));
+                }
+            }
+        }
+        if self.feat.arrays {
+            // read an array that is in scope
+            let arrs: Vec<(usize, Ty, bool)> = self
+                .scope
+                .iter()
+                .filter_map(|v| match &v.ty {
+                    Ty::Arr(t) => Some((v.id, (**t).clone(), v.assignable)),
+                    Ty::Snap(s) => match &**s {
+                        Ty::Arr(t) => Some((v.id, (**t).clone(), false)),
+                        _ => None,
+                    },
+                    _ => None,
+                })
+                .collect();
+            if !arrs.is_empty() {
+                let (a, el, owned) = self.rng.pick(&arrs).clone();
                 let x = self.fresh();
+                let c = self.rng.below(4);
+                let (t, e) = if c == 0 && owned {
+                    self.stats.hit("arr_pop_front");
+                    (Ty::Opt(Box::new(el)), Expr::ArrPop(a))
+                } else if c == 1 {
+                    self.stats.hit("arr_len");
+                    (Ty::Int(Ity::U32), Expr::ArrLen(a))
+                } else {
+                    self.stats.hit("arr_at");
+                    let i = if self.chance(70) {
+                        Expr::Lit(Ty::Int(Ity::U32), BigInt::from(self.rng.below(3)))
+                    } else {
+                        self.expr(&Ty::Int(Ity::U32), d.min(1))
+                    };
+                    (el, Expr::ArrAt(a, Box::new(i)))
+                };
                 self.scope.push(Var { id: x, ty: t.clone(), assignable: true });
                 return Some(Stmt::Let(x, t, e));
             }
@@ -965,7 +1060,7 @@ impl<'a> Gen<'a> {
                         }
                     }
                 }
-            } else if k < 85 {
+            } else if k < 80 {
                 self.stats.hit("panic");
                 let m = if self.chance(60) {
                     PanicMsg::Short(format!("p{}", self.rng.below(1000)))
